@@ -1019,6 +1019,11 @@ func (e *Engine) externalMod(ms *ModSet, c *ssa.CallCommon) {
 		ms.all = true
 		return
 	}
+	for _, a := range c.Args {
+		if fn := e.repoFuncValue(a); fn != nil {
+			ms.merge(e.funcModSet(fn))
+		}
+	}
 	for t := range types_ {
 		ms.keys["O!"+t] = true
 	}
@@ -1431,10 +1436,30 @@ func (e *Engine) externalWriteSet(c *ssa.CallCommon) (types_, elems, maps_, ghos
 		walk(v.Type(), 0)
 	}
 	for _, a := range c.Args {
+		if e.repoFuncValue(a) != nil {
+			// a function of this repository handed over as a value: the dependency may call it, so the call has
+			// that function's own effects (added by the callers of externalWriteSet), nothing more on its account
+			continue
+		}
 		visit(a)
 	}
 	if c.IsInvoke() {
 		visit(c.Value)
 	}
 	return
+}
+
+// repoFuncValue: the in-repo function behind a function-valued argument (closure literal or named function), else nil.
+func (e *Engine) repoFuncValue(v ssa.Value) *ssa.Function {
+	var fn *ssa.Function
+	switch x := v.(type) {
+	case *ssa.MakeClosure:
+		fn, _ = x.Fn.(*ssa.Function)
+	case *ssa.Function:
+		fn = x
+	}
+	if fn != nil && e.inRepo(fn) && len(fn.Blocks) > 0 {
+		return fn
+	}
+	return nil
 }
